@@ -318,7 +318,7 @@ theorem a85_body_loop (cs : List Nat) (x : Bytes) :
 /-- `base64.a85decode` inverts the body encoder (any `z`/white-space choices). -/
 theorem a85decode_body (cs : List Nat) (x : Bytes) : a85decode (a85Body cs x) = .ok x := by
   obtain ⟨junk, c, hl, hj, hc⟩ := a85_body_loop cs x
-  unfold a85decode
+  rw [a85decode_lit]
   rw [hl]
   simp only
   by_cases hp : 4 - c.length = 0
@@ -360,7 +360,7 @@ theorem a85loop_core (d : Bytes) : ∀ curr, a85loop curr d = a85loop curr (core
 theorem core_append (a b : Bytes) : core (a ++ b) = core a ++ core b := by simp [core]
 
 theorem a85decode_core (d : Bytes) : a85decode d = a85decode (core d) := by
-  unfold a85decode
+  rw [a85decode_lit, a85decode_lit]
   rw [a85loop_core (d ++ _), a85loop_core (core d ++ _), core_append, core_append]
   have : core (core d) = core d := by simp [core]
   rw [this]
